@@ -132,6 +132,10 @@ def check_C19(cx):
     for k in range(3, 31):
         rng += [(1 << k) - 1, 1 << k, (1 << k) + 1]
     rng = sorted(set(x for x in rng if x <= (1 << 30)))
+    # far above every pool maximum (only the arithmetic is exercised, nothing is allocated): powers of two +-1 up to
+    # 2^40 and seeded values in between; the reference is the Python transcription of the TLA+ operators
+    for k in range(31, 41):
+        rng += [(1 << k) - 1, 1 << k, (1 << k) + 1, (1 << k) + cx.rnd.randrange(2, 1 << (k - 1)), (1 << k) + (1 << (k - 1)) + cx.rnd.randrange(1 << (k - 2))]
     cases = [{"id": "pmath-%d" % mx, "kind": "bytes", "max": mx, "pmath": rng, "max_bufs": 1, "seed": 1} for mx in (65536, 10, 1, 100, 3, 64)]
     rs = run_driver(cx.driver, "pool", cases, cx.wd, tag="pmath", shards=6)
     bad = 0
@@ -153,7 +157,7 @@ def check_C19(cx):
     cx.extra_cov["pmath_values_compared"] = len(rng) * len(cases)
     cx.replays += len(rng) * 0
     cx.assume.append("sync.Pool is modelled as a bag (any element or none); runs pin GOMAXPROCS(1) and disable GC so histories are reproducible")
-    cx.assume.append("sizes >= 2^31 are outside TLC's integers and not covered")
+    cx.assume.append("sizes >= 2^31 are outside TLC's integers: there only the value-by-value comparison of the size-class arithmetic with its reference transcription applies (up to 2^40)")
     return finish(cx, rule="cases = Get/Put histories: TLC state-graph edge covers and seeded random histories executed on the real pbytes and pbuffer "
                             "pools; distinct_nontrivial = distinct Pool.tla transitions replayed")
 
@@ -509,7 +513,7 @@ def frame_cases(cx, n_per_cfg, lens, with_cuts=True):
     interesting cut position, several fragmentations and carriers"""
     cases = []
     frags = ["one", "rand", "edges", "whole"]
-    carriers = ["bytes", "string", "buffer", "reader"]
+    carriers = ["bytes", "string", "buffer", "reader", "mreader"]
     for ci, c in enumerate(FRAME_CONFIGS):
         adm = [p for p in lens if frame_admitted(c, p)]
         if c["kind"] == "fixed":
@@ -524,7 +528,7 @@ def frame_cases(cx, n_per_cfg, lens, with_cuts=True):
             sizes = []
             cut = -1
             base = {"id": "f%d-%d" % (ci, j), "cfg": c, "ps": ps, "cut": -1, "frag": frags[j % 4], "little": j % 2 == 1,
-                    "carrier": carriers[(j // 4) % 4], "seed": cx.rnd.randrange(1 << 40)}
+                    "carrier": carriers[j % 5] if j % 5 != 4 or c["kind"] in ("lf", "varint") else "bytes", "seed": cx.rnd.randrange(1 << 40)}
             cases.append(base)
             if with_cuts and ps and j % 2 == 0:
                 # same stream cut at a random interesting position (computed by the driver from frame layout):
@@ -557,6 +561,18 @@ def frame_raw_cases(cx, n):
                 hv = min(hv, 256 ** c["w"] - 1)
             cases.append({"id": "raw%d-%d" % (ci, j), "cfg": c, "raw": True, "hv": hv, "body": [0, 1, 5, 300, 1024][cx.rnd.randrange(5)],
                           "frag": ["one", "rand", "whole"][j % 3], "little": j % 2 == 0, "seed": cx.rnd.randrange(1 << 40), "cut": -1})
+        # header values around the maximum-frame boundary, with the whole announced body present: the largest legal
+        # frame must be delivered, one byte more must be refused (adjustment and header length count)
+        if c["max"] <= 70000:
+            hdr = c["o"] + c["w"] if c["kind"] == "lf" else 0
+            adj = c.get("a", 0) if c["kind"] == "lf" else 0
+            edge = c["max"] - adj - hdr
+            for j, d in enumerate(range(-2, abs(adj) + hdr + 3)):
+                hv = edge + d
+                if hv < 0 or (c["kind"] == "lf" and c["w"] <= 2 and hv >= 256 ** c["w"]):
+                    continue
+                cases.append({"id": "rawb%d-%d" % (ci, j), "cfg": c, "raw": True, "hv": hv, "body": max(0, hv + adj),
+                              "frag": ["whole", "rand", "one"][j % 3] if hv < 5000 else "whole", "little": j % 2 == 0, "seed": cx.rnd.randrange(1 << 40), "cut": -1})
     return cases
 
 
@@ -756,6 +772,12 @@ def check_C14(cx):
             for asyn in (False, True):
                 cases.append({"id": "h-%s-%d-%s" % (kind, sz, asyn), "op": "head", "kind": kind, "size": sz, "parts": 1 + cx.rnd.randrange(3),
                               "async": asyn, "seed": cx.rnd.randrange(1, 1 << 30)})
+    # queued channel, sender held back, the caller overwrites its buffers as soon as Write has returned
+    for kind in ("bytes", "vec", "buffer"):
+        for sz in [1, 100, 1024, 1025, 4097]:
+            for parts in (1, 2, 3):
+                cases.append({"id": "hr-%s-%d-%d" % (kind, sz, parts), "op": "head", "kind": kind, "size": sz, "parts": parts, "async": True, "reuse": True,
+                              "seed": cx.rnd.randrange(1, 1 << 30)})
     for sz in sizes + [100, 700, 3000]:
         cases.append({"id": "helpers-%d" % sz, "op": "helpers", "size": sz, "seed": cx.rnd.randrange(1, 1 << 30)})
     rs = run_driver(cx.driver, "carrier", cases, cx.wd, tag="c")
@@ -841,6 +863,11 @@ def check_C20(cx):
     for i in range(8):
         cases.append({"id": "persist%d" % i, "kind": ("read", "write")[i % 2], "tick_ms": 20, "d": 3, "free": True,
                       "steps": [{"op": "active"}] + [{"op": "tick"}] * 18, "panic": i % 4 == 3, "seed": 1})
+    # inactive, then silence for four periods, with and without a downstream handler that fails in HandleInactive:
+    # no timer may stay armed
+    for i in range(8):
+        cases.append({"id": "afterinact%d" % i, "kind": ("read", "write")[i % 2], "tick_ms": 20, "d": 3, "free": True, "inactive_panic": i % 4 != 3,
+                      "steps": [{"op": "active"}] + [{"op": "tick"}] * (1 + i % 3) + [{"op": "inactive"}] + [{"op": "tick"}] * 14, "seed": 1})
     try:
         rs = run_driver(cx.driver, "idle", cases, cx.wd, tag="t", shards=16, timeout=1200)
     except Inconclusive as e:
